@@ -48,8 +48,12 @@ def operand_ok(which, other):
             f"if {CONV} else GHOSTOP(result)[{which}] is pre) and GHOSTOP(result)[{other}] is self")
 
 
-C[M + "__or"] = dict(params={"pre1": "classobj", "pre2": "classobj"}, raises={"CannotBeUnionedException": "NEGATED(pre1) != NEGATED(pre2)"},
-                     returns="class_op", op="or", assumed=True)
+from .classes_iv import CLS_KINDS
+C[M + "__or"] = dict(
+    params={"pre1": CLS_KINDS, "pre2": CLS_KINDS}, raises={"CannotBeUnionedException": "NEGATED(pre1) != NEGATED(pre2)"},
+    ensures="ISCLS(result) and (SAME_TEXT(TEXT(result), '.') if (ISANY(pre1) or ISANY(pre2)) else (NEGATED(result) == NEGATED(pre1) "
+            "and VEQ(TV(VERBOSE(result)), VU(TV(VERBOSE(pre1)), TV(VERBOSE(pre2))))))",
+    returns="class_op", op="or", frame=[])
 C[M + "__sub"] = dict(params={"pre1": "classobj", "pre2": "classobj"}, raises={"CannotBeSubtractedException": "NEGATED(pre1) != NEGATED(pre2)"},
                       may_raise=["EmptyClassException", "GlobalWordCharSubtractionException"], returns="class_op", op="sub", assumed=True)
 for meth, op, exc, mine, theirs in (("__or__", "or", "CannotBeUnionedException", 1, 2), ("__ror__", "or", "CannotBeUnionedException", 2, 1),
